@@ -220,7 +220,7 @@ func propMain(id string, args []string) int {
 				continue
 			}
 			nReplayed++
-			rdir := filepath.Join(verifDir, "replays", spec.ID)
+			rdir := filepath.Join(outDir(), "replays", spec.ID)
 			os.MkdirAll(rdir, 0o755)
 			rpath := filepath.Join(rdir, fmt.Sprintf("%s_%d.json", v.Harness, nReplayed))
 			rf := &ReplayFile{Property: spec.ID, Harness: v.Harness, Pkg: pkgOf[v.Harness], Kind: v.Kind, Msg: v.Msg, Site: v.Site, Pos: v.Pos,
@@ -431,7 +431,19 @@ func writeEvidence(spec *Spec, tier string, seed int, rep *gsx.Report, T *Tier, 
 		cov["engine_bounds"] = map[string]interface{}{"unwind": T.Unwind, "max_symbolic_alloc_len": T.MaxSymLen, "preemption_bound": T.Preempt, "segmentation_symbolic": T.Seg, "map_order_permutations": T.MapPerm}
 	}
 	cov["encoding"] = "regenerated from /repo working tree on this run via go/packages overlay + go/ssa; no cached summaries"
-	os.MkdirAll(filepath.Join(verifDir, "evidence"), 0o755)
+	os.MkdirAll(filepath.Join(outDir(), "evidence"), 0o755)
 	b, _ := json.MarshalIndent(ev, "", " ")
-	os.WriteFile(filepath.Join(verifDir, "evidence", spec.ID+".json"), b, 0o644)
+	os.WriteFile(filepath.Join(outDir(), "evidence", spec.ID+".json"), b, 0o644)
+}
+
+// outDir: where evidence and replay files go: /verif, or $VERIF_OUT when a scratch copy of the
+// repository is checked (VERIF_REPO).
+func outDir() string {
+	if os.Getenv("VERIF_REPO") != "" {
+		if d := os.Getenv("VERIF_OUT"); d != "" {
+			return d
+		}
+		return filepath.Join(os.TempDir(), "vcheck-scratch-out")
+	}
+	return verifDir
 }
